@@ -206,6 +206,12 @@ def merge_stats(jobs):
     return total
 
 
+def add_evaluation_counters(total, prop):
+    """comparisons done inside one grid case count as evaluations (they are inputs tried)"""
+    for k in prop.get("evaluation_counters", []):
+        total["evaluations"] += total["classes"].get(k, 0)
+
+
 def replay_artifact(binary, path, exclude, times, env_extra=None):
     """re-run a failing case through the replay driver; returns number of failing runs"""
     fails = 0
@@ -303,6 +309,7 @@ def main():
 
     # ---- collect ----------------------------------------------------------
     total = merge_stats(jobs)
+    add_evaluation_counters(total, prop)
     violations = []
     infra = []
     for j in jobs:
